@@ -38,7 +38,7 @@ CONFIGS = {
 }
 
 
-def _obl(cfg_name, lens, chunk, timeout):
+def _obl(cfg_name, lens, chunk, timeout, prefix=''):
     c = CONFIGS[cfg_name]
     params, pre, exprs = [], [], []
     for i, l in enumerate(lens):
@@ -49,15 +49,15 @@ def _obl(cfg_name, lens, chunk, timeout):
     if not params:
         params, pre = [('dummy', 'int')], ['dummy == 0']
     body = indent('''
-pieces = [%s]
+pieces = [PREFIX] + [%s]      # a concrete prefix (delivered according to the chunk size) followed by the symbolic pieces
 got = csvh.read_all(pieces, ENC, DLM, POLICY, HEADER, COMMENT, CHUNK)
 exp = csvref.expected_read(''.join(pieces), DLM, POLICY, HEADER, COMMENT, ENC)
 return (got, exp)
 ''' % ', '.join(exprs))
     imports = 'from vf import csvh\nfrom vf.refmodel import csvref\nDLM = %r\nPOLICY = %r\nHEADER = %r\nCOMMENT = %r\nENC = %r\nCHUNK = %r\n' % (
-        c['dlm'], c['policy'], c['header'], c['comment'], c['enc'], chunk)
+        c['dlm'], c['policy'], c['header'], c['comment'], c['enc'], chunk) + 'PREFIX = %r\n' % prefix
     src = harness(imports, params, pre, body)
-    name = 'read[%s|pieces=%s|chunk=%d]' % (cfg_name, '+'.join(str(l) for l in lens), chunk)
+    name = 'read[%s|%spieces=%s|chunk=%d]' % (cfg_name, ('prefix=%s|' % prefix.encode('unicode_escape').decode()) if prefix else '', '+'.join(str(l) for l in lens), chunk)
     return Obl(name, src, timeout=timeout, meta={'function': 'rbql_csv.CSVRecordIterator', 'config': c, 'chunk_size': chunk,
                                                   'bounds': 'every text delivered as pieces of lengths %s (any Unicode)' % (lens,)})
 
@@ -85,7 +85,17 @@ def obligations(tier, seed):
                 # every config sees every partition of length <= 3; chunk size rotates
                 chunk = chunks[(ci + pi + n) % len(chunks)]
                 obs.append(_obl(cfg, lens, chunk, 200))
+        # longer structures: a concrete prefix (comment lines, blank lines, an open rfc record) followed by symbolic text
+        for cfg, prefix in (('quoted-space', '#\n#\n'), ('rfc+comment', '#\n#x\n'), ('simple+comment', '#\n\n#\n'), ('rfc', '"a\n'), ('quoted+hdr+bom', '\ufeffh\n\n'), ('monocolumn+comment2', '//\n/\n')):
+            for chunk in (1, 1024):
+                obs.append(_obl(cfg, (1,), chunk, 200, prefix=prefix))
+                obs.append(_obl(cfg, (1, 1), chunk, 200, prefix=prefix))
     else:
+        for cfg, prefix in (('quoted-space', '#\n#\n'), ('rfc+comment', '#\n#x\n'), ('simple+comment', '#\n\n#\n'), ('rfc', '"a\n'), ('quoted+hdr+bom', '\ufeffh\n\n'), ('monocolumn+comment2', '//\n/\n'),
+                            ('rfc+comment', '"\n#\n'), ('quoted', 'a,b\r\n'), ('rfc+hdr', 'h;"\r\n";2\r')):
+            for chunk in (1, 2, 3, 1024):
+                for lens in ((1,), (2,), (1, 1), (2, 1), (1, 2), (3,)):
+                    obs.append(_obl(cfg, lens, chunk, 1200, prefix=prefix))
         for cfg in names:
             heavy = CONFIGS[cfg]['policy'] in ('quoted', 'quoted_rfc')
             for total in range(0, 5 if heavy else 6):
